@@ -690,6 +690,62 @@ func buildAPICalls(rng *Rand, thorough bool) []apiCall {
 			return fmt.Sprintf("%d:%s", buf.Len(), digest(buf.Bytes()))
 		}})
 	}
+	// animations with undecodable frames, decoded with DecodeFramesParallel while other calls
+	// run: per-frame decoded / nil status, pixel digests and nil / non-nil error must equal the
+	// solo result (WHICH error is returned depends on the arrival order on the pinned code:
+	// C12 finding site=animation.DecodeFramesParallel/which-error, not compared here)
+	if adata != nil {
+		type cc struct {
+			name    string
+			corrupt map[int]string
+			zero    bool
+		}
+		for _, k := range []cc{
+			{"first", map[int]string{0: "trunc"}, false},
+			{"middle", map[int]string{2: "head"}, false},
+			{"last", map[int]string{3: "trunc"}, false},
+			{"two", map[int]string{1: "trunc", 3: "head"}, false},
+			{"all", map[int]string{0: "trunc", 1: "head", 2: "trunc", 3: "head"}, false},
+			{"zero-frames", nil, true},
+		} {
+			k := k
+			calls = append(calls, apiCall{"AnimDecodeCorrupt/" + k.name, func() string {
+				a := &animation.Animation{CanvasWidth: 16, CanvasHeight: 16}
+				if !k.zero {
+					var err error
+					if a, err = animation.DecodeBytes(adata); err != nil {
+						return "err"
+					}
+					for idx, how := range k.corrupt {
+						if idx < len(a.Frames) {
+							b := append([]byte(nil), a.Frames[idx].BitstreamData...)
+							if how == "trunc" {
+								b = b[:len(b)*6/10]
+							} else if len(b) > 4 && b[0] == 0x2f {
+								b[4] |= 0xE0
+							} else if len(b) > 0 {
+								b[0] |= 1
+							}
+							a.Frames[idx].BitstreamData = b
+						}
+					}
+				}
+				err := a.DecodeFramesParallel()
+				var sb strings.Builder
+				for i := range a.Frames {
+					if a.Frames[i].Image == nil {
+						sb.WriteString("-,")
+					} else {
+						sb.WriteString(digestImage(a.Frames[i].Image) + ",")
+					}
+				}
+				if err != nil {
+					sb.WriteString("|err")
+				}
+				return sb.String()
+			}})
+		}
+	}
 	return calls
 }
 
